@@ -6,7 +6,7 @@ import struct
 from hypothesis import strategies as st
 
 from harness import build, gen, simnet, wire, deflateref, httpref
-from harness.runner import Prop, Enumeration, held, failed
+from harness.runner import Prop, Enumeration, held, failed, after_every_prelude
 from props.c04 import deflate_reply
 
 FIXED_KEYS = ["00000000", "ffffffff", "01020304", "a5a5a5a5"]
@@ -207,6 +207,8 @@ class C03(Prop):
             "calls": st.lists(call, min_size=1, max_size=6),
             "keys": st.lists(key, min_size=6, max_size=6),
             "deflate": gen.deflate_opt(),
+            # an earlier connection in this process (same WebSocket object or another) and how it ended
+            "prelude": gen.prelude(),
         })
 
     def enumerations(self, tier):
@@ -220,7 +222,14 @@ class C03(Prop):
                             arg = ["ascii", n, n] if kind == "send_text" else ["rand", n, n]
                             calls.append({"m": kind, "arg": arg})
                         yield {"calls": calls, "keys": [key] * 6, "deflate": False}
-        return [Enumeration("length_sweep_x_4_keys", sweep, exhaustive=True)]
+        calls = [{"m": "send_text", "arg": ["str", "earlier connection " * 3 + "and this one"]},
+                 {"m": "send_binary", "arg": ["hex", "00ff" * 10 + "aa"]},
+                 {"m": "send_text", "arg": ["str", "earlier connection " * 3], "compress": False, "positional": False},
+                 {"m": "send_ping", "arg": ["hex", "70"]}, {"m": "send_json", "obj": {"a": [1, 2]}},
+                 {"m": "close", "code": 1000, "reason": ["s", "bye"]}]
+        battery = [{"calls": calls, "keys": FIXED_KEYS[:1] * 6, "deflate": d}
+                   for d in (False, True, {"sb": 15, "cb": 9, "snct": False, "cnct": True})]
+        return [Enumeration("length_sweep_x_4_keys", sweep, exhaustive=True), after_every_prelude(battery)]
 
     def run_case(self, case):
         negotiated = bool(case["deflate"])
